@@ -9,8 +9,8 @@ import W2c2Verif.Model.Sim
 namespace W2c2Verif.Sim
 open W2c2Verif Model Gen Spec
 
-def FRes.toOut : FRes → Out (Option Val)
-  | .value v => .val v | .trap t => .trap t | .oof => .oof | .stuck => .ub .typeError
+def FRes.toOut : FRes → Out (Option Val × GS)
+  | .value v g => .val (v, g) | .trap t => .trap t | .oof => .oof | .stuck => .ub .typeError
 
 structure MFunc where
   type : Nat                 -- type index
@@ -23,10 +23,13 @@ structure MModule where
   funcs : List MFunc
   /-- table 0 after instantiation: the function index stored in each slot (element segments: `Model.Elem`) -/
   table : List (Option Nat)
-  /-- imported (host) functions: any function of the arguments -/
-  host : Nat → List Val → Out (Option Val)
+  /-- types of the module's globals (imports first) -/
+  globalTypes : List VT := []
+  /-- imported (host) functions: any function of the arguments and of the instance's globals / memory -/
+  host : Nat → List Val → GS → Out (Option Val × GS)
 
-def MModule.ctx (m : MModule) : Ctx := { types := m.types, funcTypeIdx := m.imports ++ m.funcs.map (·.type) }
+def MModule.ctx (m : MModule) : Ctx :=
+  { types := m.types, funcTypeIdx := m.imports ++ m.funcs.map (·.type), globalTypes := m.globalTypes }
 
 /-- the function index space: imports followed by definitions -/
 def MModule.funcType (m : MModule) (fn : Nat) : Option Wasm.FuncType := (m.ctx.funcTypeIdx[fn]?).bind (m.types[·]?)
@@ -39,24 +42,25 @@ def MModule.indArity (m : MModule) (ty : Nat) : Option (Nat × Option VT) := (m.
 
 /-- call_indirect through slot `slot` expecting type `ty`: in bounds, initialised and of the expected
     signature ⇒ a call of the stored function; every other case is outside C04's quantifier -/
-def MModule.indirect (m : MModule) (call : Nat → List Val → Out (Option Val)) (ty slot : Nat) (args : List Val) : Out (Option Val) :=
+def MModule.indirect (m : MModule) (call : Nat → List Val → GS → Out (Option Val × GS)) (ty slot : Nat) (args : List Val) (g : GS) :
+    Out (Option Val × GS) :=
   match m.table[slot]? with
-  | some (some fn) => if m.funcType fn = m.types[ty]? then call fn args else .ub .typeError
+  | some (some fn) => if m.funcType fn = m.types[ty]? then call fn args g else .ub .typeError
   | _ => .ub .outOfBounds
 
-def MModule.env (m : MModule) (ns0 : NumSem) (cS cT : Nat → List Val → Out (Option Val)) : NumSem :=
+def MModule.env (m : MModule) (ns0 : NumSem) (cS cT : Nat → List Val → GS → Out (Option Val × GS)) : NumSem :=
   { ns0 with callArity := m.callArity, callS := cS, callT := cT, indArity := m.indArity, indS := m.indirect cS, indT := m.indirect cT }
 
 /-- the semantics of every function of the module, specification side (`.1`) and emitted-C side
     (`.2`, over the compiled functions `cfs`), with calls resolved one level down -/
 def MModule.run (m : MModule) (ns0 : NumSem) (cfs : List Model.CFunc) :
-    Nat → (Nat → List Val → Out (Option Val)) × (Nat → List Val → Out (Option Val))
-  | 0 => (fun _ _ => .oof, fun _ _ => .oof)
+    Nat → (Nat → List Val → GS → Out (Option Val × GS)) × (Nat → List Val → GS → Out (Option Val × GS))
+  | 0 => (fun _ _ _ => .oof, fun _ _ _ => .oof)
   | n + 1 =>
     let prev := MModule.run m ns0 cfs n
     let env := m.env ns0 prev.1 prev.2
-    (fun fn args =>
-       if fn < m.imports.length then m.host fn args else
+    (fun fn args g =>
+       if fn < m.imports.length then m.host fn args g else
        match m.funcs[fn - m.imports.length]? with
        | none => .ub .outOfBounds
        | some fd =>
@@ -64,13 +68,13 @@ def MModule.run (m : MModule) (ns0 : NumSem) (cfs : List Model.CFunc) :
          | none => .ub .typeError
          | some ft =>
            if args.map vtOf = ft.params.map vtOfW then
-             (runFuncSrc env (n + 1) fd.locals (ft.results.head?.map vtOfW) fd.body args).toOut
+             (runFuncSrc env (n + 1) fd.locals (ft.results.head?.map vtOfW) fd.body args g).toOut
            else .ub .typeError,
-     fun fn args =>
-       if fn < m.imports.length then m.host fn args else
+     fun fn args g =>
+       if fn < m.imports.length then m.host fn args g else
        match cfs[fn - m.imports.length]? with
        | none => .ub .outOfBounds
-       | some cf => if args.map vtOf = cf.paramTypes then (runFuncTgt env (n + 1) cf args).toOut else .ub .typeError)
+       | some cf => if args.map vtOf = cf.paramTypes then (runFuncTgt env (n + 1) cf args g).toOut else .ub .typeError)
 
 def MModule.compileOne (m : MModule) (fd : MFunc) : Except Err Model.CFunc :=
   match m.types[fd.type]? with
@@ -86,8 +90,9 @@ def MModule.compileFuncs (m : MModule) : List MFunc → Except Err (List Model.C
     let cfs ← m.compileFuncs rest
     .ok (cf :: cfs)
 
-/-- host functions return values of their declared result type -/
+/-- host functions return values of their declared result type and leave the globals well typed -/
 def HostOK (m : MModule) : Prop :=
-  ∀ fn n t args v, fn < m.imports.length → m.callArity fn = some (n, some t) → m.host fn args = .val (some v) → vtOf v = t
+  (∀ fn n t args g v g', fn < m.imports.length → m.callArity fn = some (n, some t) → m.host fn args g = .val (some v, g') → vtOf v = t) ∧
+  (∀ fn args g r, fn < m.imports.length → GTyped m.ctx g → m.host fn args g = .val r → GTyped m.ctx r.2)
 
 end W2c2Verif.Sim
